@@ -344,7 +344,9 @@ func Concretize(e *Edge, n int) Concrete {
 			if c.P == "ok" {
 				plan = append(plan, rec.AuthStep{Done: true})
 			} else {
-				plan = append(plan, rec.AuthStep{Err: errors.New("credentials refused")})
+				// (mechanisms differ in what they report along with a failure: go-sasl's PLAIN
+				// and LOGIN servers say "done" together with the error, others do not)
+				plan = append(plan, rec.AuthStep{Err: errors.New("credentials refused"), Done: n%2 == 0})
 			}
 			k.Setup = func(be *rec.Backend) { be.AuthPlans = [][]rec.AuthStep{plan} }
 		}
